@@ -513,6 +513,7 @@ def gen_case(r, n, kind):
         elif x < (58 if grow else 55):
             o, k = key(r.chance(85)); shadow.pop(o, None)
             yield "C del %s" % k
+            if r.chance(30): yield "C " + r.pick(["items", "keys"])      # iteration right after a deletion (possibly over an emptied leaf)
         elif x < 64:
             yield "C get %s" % key(r.chance(60))[1]; mut = False
         elif x < 67:
@@ -628,6 +629,7 @@ def main():
                     w = l.split(); ser += 1; kk = int(w[1]) + cap - 1
                     ex.run_line(("C set %d#%d %d" % (kk, ser, ser)) if w[0] == "set" else ("C del %d#%d" % (kk, ser)))
                     ex.run_line("C dump")
+                    ex.run_line("C " + ("items", "keys")[ser % 2])      # printed, so that the model's iteration is compared too
                 ex.run_line("C refs")
                 if done >= cases: break
             if done >= cases: break
